@@ -41,6 +41,19 @@ def scan(seed_dir):
                             own.add(fl["obligation"])
                         else:
                             other.setdefault(pr, set()).add(fl["obligation"])
+        import kani as kanimod
+        for u in kanimod.all_units():
+            r = kanimod.run_unit(u, repo=d, work=run.WORK)
+            if r["status"] == "undecided":
+                und.append("%s: %s" % (u, r["reason"][:160]))
+            for fl in r["failures"]:
+                for pr in fl["props"]:
+                    if report.is_known(fl, pr, known):
+                        continue
+                    if pr == prop:
+                        own.add(fl["obligation"])
+                    else:
+                        other.setdefault(pr, set()).add(fl["obligation"])
         meta["detected_by"] = sorted(own)
         meta["also_reported_under"] = {k: sorted(v) for k, v in sorted(other.items())}
         meta["detected"] = bool(own)
